@@ -199,8 +199,7 @@ static size_t v_copy_name(void *dst, size_t dst_len, const uint8_t *src, uint8_t
     size_t n = len;
     if (n > V_NAME_MAX) n = V_NAME_MAX;
     size_t w = n > dst_len ? dst_len : n;
-    uint8_t *d = (uint8_t *)dst;
-    for (size_t i = 0; i < w; i++) d[i] = src[i];
+    if (w > 0) memcpy(dst, src, w);
     return ret_full ? n : w;
 }
 
@@ -212,7 +211,7 @@ size_t lltd_port_get_support_url(void *dst, size_t dst_len) { (void)dst; (void)d
 
 int lltd_port_get_upnp_uuid(uint8_t out_uuid[16]) {
     if (g_plat.uuid_fail) return -1;
-    for (int i = 0; i < 16; i++) out_uuid[i] = g_plat.uuid[i];
+    memcpy(out_uuid, g_plat.uuid, 16);
     return 0;
 }
 
@@ -220,15 +219,14 @@ size_t lltd_port_get_hw_id(void *dst, size_t dst_len) {
     size_t n = g_plat.hwid_len;
     if (n > 64) n = 64;
     if (n > dst_len) n = dst_len;
-    uint8_t *d = (uint8_t *)dst;
-    for (size_t i = 0; i < n; i++) d[i] = g_plat.hwid[i];
+    if (n > 0) memcpy(dst, g_plat.hwid, n);
     return n;
 }
 
 int lltd_port_get_mac_address(void *iface_ctx, ethernet_address_t *out_mac) {
     vcfg *c = (vcfg *)iface_ctx;
     if (c->mac_fail) return -1;
-    for (int i = 0; i < 6; i++) out_mac->a[i] = c->mac[i];
+    memcpy(out_mac->a, c->mac, 6);
     return 0;
 }
 
@@ -242,7 +240,7 @@ int lltd_port_get_ipv4_address(void *iface_ctx, uint32_t *out) {
 }
 int lltd_port_get_ipv6_address(void *iface_ctx, uint8_t out[16]) {
     vcfg *c = (vcfg *)iface_ctx; if (c->ipv6_fail) return -1;
-    for (int i = 0; i < 16; i++) out[i] = c->ipv6[i];
+    memcpy(out, c->ipv6, 16);
     return 0;
 }
 int lltd_port_get_link_speed_100bps(void *iface_ctx, uint32_t *out) {
@@ -253,7 +251,7 @@ int lltd_port_get_wifi_mode(void *iface_ctx, uint8_t *out) {
 }
 int lltd_port_get_bssid(void *iface_ctx, uint8_t out[6]) {
     vcfg *c = (vcfg *)iface_ctx; if (c->bssid_fail) return -1;
-    for (int i = 0; i < 6; i++) out[i] = c->bssid[i];
+    memcpy(out, c->bssid, 6);
     return 0;
 }
 size_t lltd_port_get_ssid(void *iface_ctx, void *dst, size_t dst_len) {
